@@ -171,7 +171,13 @@ impl Exp {
                     },
                     BinOp::Mul => match (lhs, rhs) {
                         (Exp::Number(lhs), Exp::Number(rhs)) => Exp::Number(lhs * rhs),
-                        (Exp::Number(0.0), _) | (_, Exp::Number(0.0)) => Exp::Number(0.0),
+                        // a division stays visible so that a variable or zero
+                        // denominator is still diagnosed by the linearizer
+                        (Exp::Number(0.0), other) | (other, Exp::Number(0.0))
+                            if !other.contains_division() =>
+                        {
+                            Exp::Number(0.0)
+                        }
                         (Exp::Number(1.0), rhs) => rhs,
                         (lhs, Exp::Number(1.0)) => lhs,
                         (lhs, rhs) => Exp::BinOp(BinOp::Mul, lhs.to_box(), rhs.to_box()),
@@ -397,6 +403,22 @@ impl Exp {
         }
     }
 
+    /// Whether a division occurs anywhere in the expression.
+    pub fn contains_division(&self) -> bool {
+        match self {
+            Exp::Number(_) | Exp::Variable(_) => false,
+            Exp::BinOp(BinOp::Div, _, _) => true,
+            Exp::BinOp(_, lhs, rhs)
+            | Exp::Xor(lhs, rhs)
+            | Exp::Implies(lhs, rhs)
+            | Exp::Iff(lhs, rhs) => lhs.contains_division() || rhs.contains_division(),
+            Exp::Abs(inner) | Exp::Not(inner) | Exp::UnOp(_, inner) => inner.contains_division(),
+            Exp::Min(exps) | Exp::Max(exps) | Exp::And(exps) | Exp::Or(exps) => {
+                exps.iter().any(|exp| exp.contains_division())
+            }
+        }
+    }
+
     /// Checks if the expression is a leaf node (number or variable).
     ///
     /// # Returns
@@ -485,6 +507,15 @@ fn simplify_logic_nary(exps: &[Exp], is_and: bool) -> Exp {
             (false, Exp::Or(inner)) => flattened.extend(inner),
             (_, exp) => flattened.push(exp),
         }
+    }
+    // an absorbing constant must not swallow an operand that holds a division,
+    // it stays visible for the linearizer's diagnostics
+    if flattened.iter().any(|exp| exp.contains_division()) {
+        return if is_and {
+            Exp::And(flattened)
+        } else {
+            Exp::Or(flattened)
+        };
     }
     let mut result: Vec<Exp> = Vec::new();
     for exp in flattened {
